@@ -18,18 +18,23 @@ EXTENDS Naturals, FiniteSets, TLC
 
 CONSTANTS Defects
 Mutations == {"create_0644", "pass_ignored_on_write", "load_ignores_password", "eq_private", "hash_private",
-              "public_drops_type"}
+              "public_drops_type",
+              "eq_cert"}     \* __eq__ also compares the certificates when both sides carry one (seeded change C36a)
 ASSUME Defects \subseteq Mutations
 
 (* ------------------------------ key objects ------------------------------ *)
 Types       == {"rsa", "ecdsa256", "ecdsa384", "ecdsa521", "ed25519"}
 Writable(t) == t # "ed25519"                   \* there is no Ed25519 writer (nor generator)
 Mats        == {"k1", "k2"}
-Kinds       == {"generated", "loaded", "public", "loaded_cert", "public_cert"}
-Private(k)  == k \in {"generated", "loaded", "loaded_cert"}
-CertTypes   == {"rsa", "ecdsa256", "ed25519"}  \* types for which the tests bundle a certificate
+\* certificate-bearing kinds: a private key with a certificate attached (load_certificate) and a key parsed
+\* from a certificate blob; certificate A is the bundled fixture where the tests have one (else synthesised),
+\* certificate B is a second, different certificate for the SAME key (re-issued: other serial / id / nonce)
+Kinds       == {"generated", "loaded", "public", "loaded_cert", "public_cert", "loaded_cert_b", "public_cert_b"}
+Private(k)  == k \in {"generated", "loaded", "loaded_cert", "loaded_cert_b"}
+Cert(k)     == CASE k \in {"loaded_cert", "public_cert"} -> "A" [] k \in {"loaded_cert_b", "public_cert_b"} -> "B"
+                 [] OTHER -> "none"
 KAvail(t, m, k) == /\ (k = "generated" => t # "ed25519")
-                   /\ (k \in {"loaded_cert", "public_cert"} => (t \in CertTypes /\ m = "k1"))
+                   /\ (Cert(k) # "none" => m = "k1")
 KeyObj(t, m, k) == [type |-> t, mat |-> m, kind |-> k]
 NoObj   == KeyObj("-", "-", "-")
 KeyObjs == {o \in {KeyObj(t, m, k) : t \in Types, m \in Mats, k \in Kinds} : KAvail(o.type, o.mat, o.kind)}
@@ -132,7 +137,9 @@ L_Load(lp, rt) ==
   /\ UNCHANGED <<ktype, target, umask, fs, wpass, wres, cvars, mode>>
 
 (* ----------------------------- compare machine ---------------------------- *)
-EqModel(a, b)   == Pub(a) = Pub(b) /\ ("eq_private" \in Defects => Private(a.kind) = Private(b.kind))
+EqModel(a, b)   == /\ Pub(a) = Pub(b) /\ ("eq_private" \in Defects => Private(a.kind) = Private(b.kind))
+                   /\ (("eq_cert" \in Defects /\ Cert(a.kind) # "none" /\ Cert(b.kind) # "none")
+                          => Cert(a.kind) = Cert(b.kind))
 HashModel(a, b) == Pub(a) = Pub(b) /\ ("hash_private" \in Defects => Private(a.kind) = Private(b.kind))
 Compare(a, b) ==
   /\ mode = "cmp" /\ pc = "start" /\ pc' = "cmp_done"
